@@ -3,7 +3,8 @@
 (* C10 -- every operator is a total function on the scalar universe and    *)
 (* follows Excel's coercion, error and ordering rules.                     *)
 (*                                                                         *)
-(* The definitions are in ExcelValues.  This module is the enumerator:     *)
+(* The definitions are in ExcelValues (and, for text that spells a         *)
+(* logical, below).  This module is the enumerator:                        *)
 (* the state is a cursor (operator, a, b[, c]) through Ops x Pool x Pool   *)
 (* (Pool^3 when Triples), the laws named in the property are invariants    *)
 (* over the definitions, and every visited state is exported as one test   *)
@@ -30,9 +31,42 @@ B == Pool[j]
 C == Pool[k]
 Unary == Op \in UnaryOps
 
-\* the operator at the cursor applied by the definitions of ExcelValues
-Result(oo, ii, jj) == IF Ops[oo] \in UnaryOps THEN Apply1(Ops[oo], Pool[ii])
-                      ELSE Apply(Ops[oo], Pool[ii], Pool[jj])
+--------------------------------------------------------------------------
+(* Text that spells a logical -- TRUE or FALSE in any mix of upper and     *)
+(* lower case, spaces around it or not -- is text.  It is not a logical    *)
+(* and it is not numeric text, so it is "other text" to arithmetic:        *)
+(* ="TRUE"+1, ="false"*5 and =-"True" are #VALUE! in Excel; only the       *)
+(* logical TRUE counts as 1.  (& and the comparisons take it as the text   *)
+(* it is: "TRUE"&1 is "TRUE1", "TRUE" < TRUE.)  ExcelValues!ParseNum       *)
+(* leaves these words open (U("any")); the operators of C10 decide them:   *)
+(* ToNumS / ArithS / ApplyS are ToNum / Arith / Apply with that one        *)
+(* refinement.                                                             *)
+SpellsLogical(v) == /\ IsText(v)
+                    /\ (LowerIs(Trim(v[2]), TrueWord) \/ LowerIs(Trim(v[2]), FalseWord))
+
+\* number, #VALUE!, or U
+ToNumS(v) == IF SpellsLogical(v) THEN VALUE ELSE ToNum(v)
+
+\* + - * / ^ : an error operand first (the left one first), then the
+\* coercion failures (the left one first), as in ExcelValues!Arith
+ArithS(op, a, b) ==
+  LET p == Propagate(a, b)
+      x == IF IsU(a) THEN a ELSE ToNumS(a)
+  IN  IF p # Go THEN p
+      ELSE IF ~SpellsLogical(a) /\ ~SpellsLogical(b) THEN Arith(op, a, b)
+      ELSE IF IsErr(x) THEN x                       \* a is the word, or fails itself
+      ELSE IF IsU(x) /\ x[2] # "num" THEN U("any")  \* a might fail: which error is open
+      ELSE VALUE                                    \* a is a number, b is the word
+
+ApplyS(op, a, b) == IF op \in ArithOps THEN ArithS(op, a, b) ELSE Apply(op, a, b)
+Apply1S(op, a) ==
+  CASE op = "u-" -> IF IsErr(a) THEN a ELSE ArithS("-", Zero, a)
+    [] op = "%"  -> IF IsErr(a) THEN a ELSE ArithS("/", a, IntV(100))
+    [] op = "u+" -> a
+
+\* the operator at the cursor applied by these definitions
+Result(oo, ii, jj) == IF Ops[oo] \in UnaryOps THEN Apply1S(Ops[oo], Pool[ii])
+                      ELSE ApplyS(Ops[oo], Pool[ii], Pool[jj])
 
 (* A known deviation (finding C10_r3_2): pycel represents an error value by *)
 (* the text of its code, so a text operand spelled like one is taken for   *)
@@ -42,7 +76,7 @@ Result(oo, ii, jj) == IF Ops[oo] \in UnaryOps THEN Apply1(Ops[oo], Pool[ii])
 (* deviation exactly when the code returns the deviant result.  <<>>: the  *)
 (* operands at the cursor have no deviant reading.                         *)
 Dv(v) == IF v \in DOMAIN Dev THEN Dev[v] ELSE v
-Apply2(op, a, b) == IF op \in UnaryOps THEN Apply1(op, a) ELSE Apply(op, a, b)
+Apply2(op, a, b) == IF op \in UnaryOps THEN Apply1S(op, a) ELSE ApplyS(op, a, b)
 DevResult == IF A \in DOMAIN Dev \/ (~Unary /\ B \in DOMAIN Dev)
              THEN Apply2(Op, Dv(A), Dv(B)) ELSE <<>>
 
@@ -82,15 +116,23 @@ ErrLeftFirst == /\ IsErr(A) => R = A
                 /\ (~Unary /\ ~IsErr(A) /\ IsErr(B)) => R = B
 
 \* x / 0 = #DIV/0! whenever x is something arithmetic accepts
-DivZeroCase == Op = "/" /\ Scalar(A) /\ Scalar(B) /\ IsNumV(ToNum(A)) /\ ToNum(B) = Zero
+DivZeroCase == Op = "/" /\ Scalar(A) /\ Scalar(B) /\ IsNumV(ToNumS(A)) /\ ToNumS(B) = Zero
 DivZero == DivZeroCase => R = DIV0
 
 \* arithmetic: logicals, blanks and numeric text count as their numbers;
 \* other text is #VALUE!
 Coercion == (Op \in ArithOps /\ Scalar(A) /\ Scalar(B)) =>
-   LET na == ToNum(A)  nb == ToNum(B)  r == R IN
-   /\ (IsNumV(na) /\ IsNumV(nb)) => r = Apply(Op, na, nb)
+   LET na == ToNumS(A)  nb == ToNumS(B)  r == R IN
+   /\ (IsNumV(na) /\ IsNumV(nb)) => r = ApplyS(Op, na, nb)
    /\ (na = VALUE \/ (IsNumV(na) /\ nb = VALUE)) => r = VALUE
+
+\* text that spells a logical is other text to arithmetic, whatever the
+\* other operand is (error operands go first; an operand whose own reading
+\* is open leaves open which error it is)
+WordCase == (Op \in ArithOps \/ Unary) /\ Scalar(A) /\ (Unary \/ Scalar(B))
+            /\ (SpellsLogical(A) \/ (~Unary /\ SpellsLogical(B)))
+WordIsText == WordCase => /\ R \in {VALUE, U("any")}
+                          /\ (Unary \/ IsNumV(ToNumS(A)) \/ SpellsLogical(A)) => R = VALUE
 
 \* exactly one of <, =, > holds; <>, <=, >= are the complements; a < b iff b > a
 \* (a comparison whose outcome the statement leaves open is not a logical)
@@ -138,10 +180,10 @@ ConcatRender == Op = "&" =>
 \* unary minus is subtraction from 0, percent is division by 100,
 \* + and * commute (after error propagation, which is left-first)
 Algebra ==
-   /\ Op = "u-" => R = Apply("-", Zero, A)
-   /\ Op = "%"  => R = Apply("/", A, IntV(100))
+   /\ Op = "u-" => R = ApplyS("-", Zero, A)
+   /\ Op = "%"  => R = ApplyS("/", A, IntV(100))
    /\ (Op \in {"+", "*"} /\ Scalar(A) /\ Scalar(B)) =>
-        LET r == R IN (~IsU(r) /\ r # VALUE) => r = Apply(Op, B, A)
+        LET r == R IN (~IsU(r) /\ r # VALUE) => r = ApplyS(Op, B, A)
 
 --------------------------------------------------------------------------
 (* the law of triple mode: <= is transitive on non-blank operands (so the  *)
@@ -165,6 +207,7 @@ ExportPair ==
                div0 |-> B2N(DivZeroCase),
                tri  |-> B2N(Op = "<" /\ Scalar(A) /\ Scalar(B) /\ IsBool(R)),
                cat  |-> B2N(ConcatCase),
+               word |-> B2N(WordCase),
                coer |-> B2N(Op \in ArithOps /\ Scalar(A) /\ Scalar(B)
                             /\ (~IsNumV(A) \/ ~IsNumV(B)))]]))
 
